@@ -121,7 +121,33 @@ def run(tier, replay=None):
     drift = sum(o.get("drift", 0) for o in res)
     keys = set(tuple(k) for o in res for k in o.get("keys", []))
     if drift: log("note: %d reader calls are not steps of spec/HeaderIOOps.tla (model drift, informational)" % drift)
-    cov = {"states": len(recs), "transitions": sum(len(x.get("steps", [1])) for x in recs), "traces_validated_against_impl": len(recs), "evaluations": len(recs),
+    # the same header readers reached through isal_inflate (which parses the wrapper with its own buffers and keeps the reader's state inside
+    # the decompressor): gzip members with every combination of optional fields (with and without a header CRC) and zlib streams that
+    # announce a dictionary, split at every header byte, followed by a short body; judged like any other inflate trace (TraceInflate)
+    nvia = 0
+    if not replay:
+        import zlib, struct
+        from props import inflfam
+        import igz
+        body = bytes(igz.corpus(rng, "text", 300)); c6 = zlib.compressobj(6, zlib.DEFLATED, -15); rawb = c6.compress(body) + c6.flush()
+        isc = []
+        for mask in range(16):
+            for hcrc in (0, 32):
+                f = fields(rng, mask | hcrc | 64); f["extra"] = f["extra"][:14]; f["comment"] = f["comment"][:9]; f["name"] = f["name"][:7]
+                st = gz_bytes(f) + rawb + struct.pack("<II", zlib.crc32(body) & 0xffffffff, len(body))
+                hl = len(st) - len(rawb) - 8
+                for cut in range(1, hl + 2):
+                    if tier == "quick" and (cut + mask) % 2 and cut > 10: continue
+                    isc.append(igz.scenario(len(isc), "inflate", list(st), wrap=1, calls=[[cut, 1 << 16, 0, 0], [len(st) - cut, 1 << 16, 0, 0]], mem=cut % 3, meta={"family": "gzip-header-through-isal_inflate", "cpu": "host", "salt": cut % 6}))
+        dct = igz.corpus(rng, "text", 500); data = bytes(dct[100:300] + igz.corpus(rng, "text", 100))
+        cz = zlib.compressobj(6, zlib.DEFLATED, 15, 9, 0, bytes(dct)); zst = cz.compress(data) + cz.flush()
+        for cut in range(1, 9):
+            isc.append(igz.scenario(len(isc), "inflate", list(zst), wrap=3, dictmode=2, dct=dct, calls=[[cut, 1 << 16, 0, 0], [len(zst) - cut, 1 << 16, 0, 0]], mem=cut % 3, meta={"family": "zlib-fdict-header-through-isal_inflate", "cpu": "host", "salt": cut % 6}))
+        vv = Verdict("C19", tier)
+        inflfam.run_and_judge(vv, isc, wd, "c19i")
+        for key, desc, rp in vv.violations: v.violation("via-isal_inflate:" + key, desc, rp)
+        nvia = len(isc)
+    cov = {"headers_through_isal_inflate": nvia, "states": len(recs), "transitions": sum(len(x.get("steps", [1])) for x in recs), "traces_validated_against_impl": len(recs), "evaluations": len(recs),
            "distinct_nontrivial": counts["read"] + counts["wgzip"], "writer_calls": counts["wgzip"] + counts["wzlib"], "reader_runs": counts["read"],
            "state_machine_conformance": {"model": "spec/HeaderIOOps.tla (machine: spec/HeaderIO.tla, model-checked: %s)" % {k: x["distinct"] for k, x in mc.items()},
                                          "reader_calls_not_in_model": drift, "distinct_(kind,state,input,code,next_state)_observed": len(keys)},
